@@ -175,13 +175,19 @@ func replaySchedule(ps *propSink, progSpec, schedSpec string) string {
 		announced   bool
 	}
 	threads := make([]*thread, len(specs))
+	shape := "base" // `Op@shape:pattern`: the pair of sets is made the way that shape says
 	for i, s := range specs {
 		p := strings.Split(s, ":")
 		e, ok := byKey[s]
 		if len(p) != 2 || !ok {
 			return "bad-request"
 		}
-		threads[i] = &thread{op: p[0], pattern: p[1], acts: e.Acts}
+		opName := p[0]
+		if k := strings.Index(opName, "@"); k >= 0 {
+			shape = opName[k+1:]
+			opName = opName[:k]
+		}
+		threads[i] = &thread{op: opName, pattern: p[1], acts: e.Acts}
 	}
 	var sched []int
 	if schedSpec != "-" {
@@ -193,7 +199,7 @@ func replaySchedule(ps *propSink, progSpec, schedSpec string) string {
 			sched = append(sched, v)
 		}
 	}
-	a, b := lockrec.OrderedPair() // lock 0 = the set the library locks first, as in the recorded sequences
+	a, b := lockrec.OrderedPairShape(shape) // lock 0 = the set the library locks first, as in the recorded sequences
 	var mu sync.Mutex
 	gidToThread := map[int64]int{}
 	parentOf := map[int]int{} // goroutines spawned by an operation inherit its thread (Iter)
@@ -330,53 +336,58 @@ func replaySchedule(ps *propSink, progSpec, schedSpec string) string {
 // straight away; a watchdog reports goroutines that never return
 
 func stressPairs(ps *propSink) string {
-	names, _ := lockrec.OpNames()
+	names, binary := lockrec.OpNames()
 	runs, hung := 0, 0
-	for _, n1 := range names {
-		for _, n2 := range names {
-			for _, pat := range [][2]string{{"AB", "BA"}, {"AA", "AB"}} {
-				a, b := twoSets()
-				var wg sync.WaitGroup
-				done := make(chan struct{})
-				body := func(f func()) {
-					wg.Add(1)
-					go func() { defer wg.Done(); f() }()
+	for _, shape := range []string{"base", "apart256", "apart65536"} {
+		for _, n1 := range names {
+			for _, n2 := range names {
+				if shape != "base" && !(binary[n1] && binary[n2]) {
+					continue // how far apart two sets were created matters to operations that take both
 				}
-				// a slow reader on each set: it is inside the set (read lock held) while the operations start
-				for _, s := range []mapset.Set{a, b} {
-					s := s
-					body(func() {
-						ch := s.Iter()
-						time.Sleep(150 * time.Microsecond)
-						for range ch {
+				for _, pat := range [][2]string{{"AB", "BA"}, {"AA", "AB"}} {
+					a, b := lockrec.OrderedPairShape(shape)
+					var wg sync.WaitGroup
+					done := make(chan struct{})
+					body := func(f func()) {
+						wg.Add(1)
+						go func() { defer wg.Done(); f() }()
+					}
+					// a slow reader on each set: it is inside the set (read lock held) while the operations start
+					for _, s := range []mapset.Set{a, b} {
+						s := s
+						body(func() {
+							ch := s.Iter()
+							time.Sleep(150 * time.Microsecond)
+							for range ch {
+							}
+						})
+					}
+					for k := 0; k < 6; k++ {
+						k := k
+						// a set handed back by an operation is a set like any other: it is written to and read
+						// straight away (callOpM useResult), and that must return too
+						body(func() { r, g := operands(pat[0], a, b); callOpM(n1, r, g, k, true) })
+						body(func() { a.Add(100 + k) })
+						body(func() { r, g := operands(pat[1], a, b); callOpM(n2, r, g, k, true) })
+						body(func() { b.Add(100 + k) })
+					}
+					go func() { wg.Wait(); close(done) }()
+					runs++
+					select {
+					case <-done:
+						continue
+					case <-time.After(2 * time.Second):
+					}
+					// not back after 2 s: a deadlock never ends, a machine that is merely busy does — give it
+					// another 20 s before calling it a hang
+					select {
+					case <-done:
+					case <-time.After(20 * time.Second):
+						hung++
+						ps.add("C17", "program=%s(%s)||%s(%s)||Add(A)||Add(B) x6 on a pair of sets of shape %s: some goroutine never returns on the real code (22 s watchdog)", n1, pat[0], n2, pat[1], shape)
+						if hung >= 3 {
+							return fmt.Sprintf("runs=%d hung=%d (stopped early)", runs, hung)
 						}
-					})
-				}
-				for k := 0; k < 6; k++ {
-					k := k
-					// a set handed back by an operation is a set like any other: it is written to and read
-					// straight away (callOpM useResult), and that must return too
-					body(func() { r, g := operands(pat[0], a, b); callOpM(n1, r, g, k, true) })
-					body(func() { a.Add(100 + k) })
-					body(func() { r, g := operands(pat[1], a, b); callOpM(n2, r, g, k, true) })
-					body(func() { b.Add(100 + k) })
-				}
-				go func() { wg.Wait(); close(done) }()
-				runs++
-				select {
-				case <-done:
-					continue
-				case <-time.After(2 * time.Second):
-				}
-				// not back after 2 s: a deadlock never ends, a machine that is merely busy does — give it
-				// another 20 s before calling it a hang
-				select {
-				case <-done:
-				case <-time.After(20 * time.Second):
-					hung++
-					ps.add("C17", "program=%s(%s)||%s(%s)||Add(A)||Add(B) x6: some goroutine never returns on the real code (22 s watchdog)", n1, pat[0], n2, pat[1])
-					if hung >= 3 {
-						return fmt.Sprintf("runs=%d hung=%d (stopped early)", runs, hung)
 					}
 				}
 			}
